@@ -13,6 +13,14 @@ Inductive inp_outcome := InpSame | InpMessage | InpRaise.
 Definition is_raise (o : inp_outcome) : bool := match o with InpRaise => true | _ => false end.
 Definition is_message (o : inp_outcome) : bool := match o with InpMessage => true | _ => false end.
 
+(* What is under a path when FileHash.refreshed looks: os.stat fails (missing file, broken link);
+   a regular file that can be read; or something os.stat describes but compute_file_digest cannot
+   hash (a directory: HashFailedError; no read permission: OSError). *)
+Inductive dstate :=
+| DMissing
+| DFile (st : fstat) (data : str)
+| DUnreadable (st : fstat).
+
 (* The two digests of a StepHash (the part that skip decisions compare).  out_digest is None until
    with_out_hashes ran. *)
 Record shash := mk_shash { sh_inp : str; sh_out : option str }.
